@@ -261,12 +261,20 @@ def build_table(ctx):
         try:
             res = fn(Probe(), *sent)
         except Exception:
-            ctx.notes.append(f'operator table: {name} does not compose')
-            continue
+            res = None
         if not (isinstance(res, tuple) and res and
                 res[0] in ('un', 'bin', 'rbin', 'nar')):
-            continue
-        if res[0] == 'rbin':
+            # every public method of AbstractObject is an operator: keep the
+            # row (arity from the signature) so that the cases expose it
+            ctx.notes.append(f'operator table: {name} does not compose')
+            res = ('un' if not params else 'bin' if len(params) == 1
+                   else 'nar', None, Sent(0))
+        # a reflected dunder is recognised by its name (Python's data
+        # model decides when it is called), not by what it composes
+        if res[0] == 'rbin' or (
+                re.fullmatch(r'__r\w+__', name) and
+                '__' + name[3:] in vars(base) and
+                hasattr(operator, '__' + name[3:]) and len(params) == 1):
             reflected.add(name)
             continue
         if res[0] == 'un' or (res[0] == 'bin' and not params):
